@@ -1017,8 +1017,28 @@ func (f *Frame) enterLoop(b *ssa.BasicBlock, ord int, st *State, reach Term) int
 			}
 		}
 	} else {
+		bases := f.loopBases(f.loopBody[b])
 		for _, k := range sortedKeys(comps) {
+			cb := bases[k]
+			s := c.compSort[k]
+			if cb == nil || cb.unknown || !strings.HasPrefix(string(s), "(Array Int ") {
+				c.havocComp(st, k)
+				continue
+			}
+			// only the listed pre-existing objects (and objects allocated in the
+			// loop) are written: everything else keeps its value
+			old := c.get(st, k)
 			c.havocComp(st, k)
+			nw := st.heap[k]
+			c.nfresh++
+			r := T(SInt, fmt.Sprintf("r!q%d", c.nfresh))
+			conds := []Term{app(SBool, "<=", r, pre.alloc)}
+			for _, bt := range cb.bases {
+				conds = append(conds, tNot(tEq(r, bt)))
+			}
+			es := elemOfArr(s)
+			c.assume(T(SBool, fmt.Sprintf("(forall ((%s Int)) %s)", r.S,
+				tImp(tAnd(conds...), tEq(app(es, "select", nw, r), app(es, "select", old, r))).S)), false)
 		}
 		na := c.fresh("alloc", SInt)
 		c.assume(app(SBool, ">=", na, st.alloc), false)
